@@ -488,6 +488,7 @@ func (g *gen) fieldType(depth int, objectOnly bool, allowContainer bool, hint st
 			ty := &Type{Kind: "enum"}
 			if rapid.Bool().Draw(t, "inlineenum") {
 				ty.InlineEnum = g.enumBody("", hint)
+				ty.InlineEnum.Desc = "" // an inline enum has no description of its own in the source
 				g.cls("inline-enum")
 			} else {
 				ti := g.pickType("enum")
